@@ -815,7 +815,8 @@ def _strip_info(lines):
 
 
 def conc_correspondence(ctx, harness_cmd, driver_cmd, runs, judge=None, label="tieC",
-                        timeout=600, max_reports=3, signature_of=None, env=None):
+                        timeout=600, max_reports=3, signature_of=None, env=None,
+                        escalate=True, escalate_budget_s=240):
     """runs: list of dicts {"conf": [lines], "sched": "random 5" | "pct 5 2" | "replay ..."}.
     Phase 1 runs the implementation under the deterministic scheduler; phase 2 replays
     the schedule it chose on the Lean model; the two outputs (schedule, every trace
@@ -890,6 +891,64 @@ def conc_correspondence(ctx, harness_cmd, driver_cmd, runs, judge=None, label="t
         if p:
             reported += 1
     only_model = [d for d in bad_model if d[0] not in {i for i, _ in bad_prop}]
+    if only_model and not bad_prop and escalate:
+        # SEARCH (DESIGN §2.6): the trace tie is broken and the runs so far show no property
+        # failure. Look harder on the implementation itself, on the configurations whose traces
+        # differ: deeper systematic exploration + many more random/PCT schedules, judged by the
+        # property oracle only.
+        t_end = time.time() + escalate_budget_s
+        confs, seen_c = [], set()
+        for d in only_model:
+            key = tuple(runs[d[0]]["conf"])
+            if key not in seen_c:
+                seen_c.add(key)
+                confs.append(runs[d[0]])
+        confs.sort(key=lambda r: len(" ".join(r["conf"])))
+        found = None
+        tried = 0
+        for base in confs[:8]:
+            if found or time.time() > t_end:
+                break
+            extra = []
+            for k in range(1, 2001):
+                r = dict(base)
+                r["sched"] = ("pct %d %d" % (ctx.rng.randrange(1, 1 << 30), 1 + k % 4)) if k % 2 else \
+                             ("random %d" % ctx.rng.randrange(1, 1 << 30))
+                extra.append(r)
+            res = run_cases(harness_cmd, [r["conf"] + ["sched " + r["sched"], "run"] for r in extra],
+                            timeout=timeout, env=env)
+            tried += len(extra)
+            for r, a in zip(extra, res):
+                msg = ("crash: " + a["crash"][:1500]) if a["crash"] else (judge(r, a["out"]) if judge else None)
+                if msg:
+                    found = (r, a, msg)
+                    break
+            if found or time.time() > t_end:
+                break
+            for bound in (2, 3, 4):
+                if found or time.time() > t_end:
+                    break
+                g = explore_schedules(harness_cmd, base["conf"], bound, max_runs=40000, env=env, timeout=timeout)
+                for sched, out in g:
+                    tried += 1
+                    r = dict(base)
+                    r["sched"] = "replay " + " ".join(sched)
+                    msg = judge(r, out) if judge else None
+                    if msg:
+                        found = (r, {"out": out, "crash": None}, msg)
+                        break
+                    if time.time() > t_end:
+                        break
+        ctx.cov["ties"][label]["escalated_search_runs"] = tried
+        if found:
+            r, a, msg = found
+            sched = next((l[len("schedule "):] for l in a["out"] if l.startswith("schedule ")), "")
+            ctx.violation({"kind": "property-fails-on-implementation", "tie": label + "/escalated-search",
+                           "conf": r["conf"], "schedule": sched, "what": msg,
+                           "ops": r["conf"] + ["sched replay " + sched, "run"],
+                           "implementation_trace": a["out"], "impl_crash": a["crash"],
+                           "broken_obligations": ctx.broken}, found_input=True,
+                          signature=signature_of(r, a["out"], msg) if signature_of else None)
     if only_model:
         i, j, x, y = only_model[0]
         ctx.broken.append("%s: model and implementation traces differ on %d run(s)" % (label, len(only_model)))
